@@ -438,7 +438,7 @@ def smallest_cap(algo, K, n, k=1):
 OPEN_FAMILIES = ["neg", "const", "zero", "tied", "noisy", "large", "large_off", "unit", "drift", "altext",
                  "incr", "decr", "best_first", "best_last", "twoval", "quant5", "bern", "negbern", "nonpos3", "hugeneg", "intnormal", "intwide", "int3wide", "records", "negzero", "alt010", "huge_off"]
 HUGE_FAMILIES = ["huge"]
-CLOSED_FAMILIES = ["cl_hump", "cl_sine", "cl_garland", "cl_step", "cl_negdist"]
+CLOSED_FAMILIES = ["cl_hump", "cl_sine", "cl_garland", "cl_step", "cl_negdist", "cl_corner", "cl_topcorner"]
 
 
 def open_rewards(fam, seed, T):
@@ -555,6 +555,14 @@ def closed_reward_fn(fam, seed, box):
             # noiseless negative distance to a dyadic target: the maximum 0 is hit exactly by a cell centre
             tgt = [(0.5, 0.25, 0.75, 0.3125)[int(c * 4) % 4] for c in centre]
             return float(-sum(abs(a - b) for a, b in zip(u, tgt)))
+        elif fam == "cl_corner":
+            # steep and monotone towards a corner of the box: the best cell of every depth is the first / the last of
+            # its layer (the places an off-by-one in a scan, a sampler or an index formula loses)
+            scale = 10.0 ** (3 * centre[0])
+            v = scale * sum((a if c > 0.5 else 1 - a) for a, c in zip(u, centre[::-1])) / d
+        elif fam == "cl_topcorner":
+            # as cl_corner, always towards the upper corner: the best cell of a layer is its last one
+            v = 1000.0 * sum(u) / d
         elif fam == "cl_step":
             v = float(sum(1.0 for a, c in zip(u, centre) if a > c)) / d - 0.5
         else:
